@@ -38,8 +38,9 @@ def glued(rng, n):
 NUM_ALPHA = ['1', '25', '/', '.', ' ', 'x']
 def numlex(tier, rng):
     import itertools as it
-    allw = [''.join(w) for k in range(2, 7) for w in it.product(NUM_ALPHA, repeat=k)]
-    words = allw if tier != 'quick' else rng.sample(allw, 700)
+    short = [''.join(w) for k in range(2, 5) for w in it.product(NUM_ALPHA, repeat=k)]      # every word of 2..4 atoms, always
+    longw = [''.join(w) for k in range(5, 7) for w in it.product(NUM_ALPHA, repeat=k)]
+    words = short + (longw if tier != 'quick' else rng.sample(longw, 300))
     return [('%s%s\nOUTPUT "next line"\n' % (rng.choice(['OUTPUT ', 'x <- ']), w)).encode() for w in words]
 
 # every channel through which a numeral reaches a conversion, at and past the 64-bit / double boundaries
